@@ -6,6 +6,7 @@ CONSTANTS
   MaxGen = 3
   MaxOps = 13
   Variant = "fixed"
+  StoreFaults = FALSE
 VIEW view
 INVARIANTS NoOldSessionOnNewFabric NoOldResumptionOnNewFabric NeverStuck RollbackRestores CommittedSurvives
 CHECK_DEADLOCK FALSE
